@@ -1,7 +1,7 @@
 """C01 -- each halo row indexes exactly its own subsample particles (index-arithmetic skeleton)."""
 import ast
 
-from ..core.srcmodel import dotted, unparse, walk_no_nested, AnalysisError, names_in, stores_in, fold_str
+from ..core.srcmodel import clone, dotted, unparse, walk_no_nested, AnalysisError, names_in, stores_in, fold_str
 from ..core.strexec import KeyCollector
 from ..core.kernels import analyse
 from ..spec.contracts import CONTRACTS
@@ -352,11 +352,11 @@ def replacement(chk):
             def visit_Name(self_, n_):
                 if isinstance(n_.ctx, ast.Load) and n_.id in ldefs:
                     import copy as _c
-                    return self_.visit(_c.deepcopy(ldefs[n_.id]))
+                    return self_.visit(clone(ldefs[n_.id]))
                 return n_
         for k, node in kc.adds:
             import copy as _c
-            v_ = unparse(_Res().visit(_c.deepcopy(node.args[0]))) if node.args else ''
+            v_ = unparse(_Res().visit(clone(node.args[0]))) if node.args else ''
             vals.setdefault(k[:-1], set()).add(v_)
         X_ = 'npstartAB_new[AB]'
         okv = vals.get('npstart') == {f'{X_}[:-1]'} and len(vals.get('npout', ())) == 1 and \
